@@ -638,3 +638,39 @@ PROPS["C19"] = dict(
     assumptions=["ENOMEM is the errno used for a refused request", "exhaustive refers to fault positions per sequence and to sequences within the depth bound"],
     trusted_base=TB_COMMON + ["in-binary mlock interposer (harness/src/mon/prot.rs)", "Linux /proc", "hook: protected::verif allocator observer"],
 )
+
+# ---------------------------------------------------------------------------------------------- C16
+
+
+def _c16_floors(m, tier):
+    out = need(m, "payload_len_mod16", range(16), "payload length residues")
+    rt = m.cov.get("serde_roundtrip", {})
+    for ty in ["DryocSecretBox<Stack,Vec>", "DryocSecretBox<Vec,Vec>", "DryocBox<Stack,Stack,Vec>", "DryocBox(sealed)<Stack,Stack,Vec>", "SignedMessage<Stack,Vec>",
+               "SigningKeyPair<Stack,Stack>", "KeyPair<Stack,Stack>", "KeyPair<Vec,Vec>", "Session<Stack>", "Kdf<Stack,Stack>", "PwHash<Vec,Vec>",
+               "DryocSecretBox<Stack,HeapBytes>", "LockedBox(secretbox)<Locked<Heap16>,LockedBytes>", "LockedKeyPair", "LockedSigningKeyPair", "LockedSignedMessage",
+               "LockedKdf", "LockedPwHash", "LockedSession"]:
+        for fmt in ("json", "bincode"):
+            if "%s|%s" % (ty, fmt) not in rt:
+                out.append("serde round trip never run: %s via %s" % (ty, fmt))
+    wl = m.cov.get("wrong_length_path", {})
+    for ty in ["StackByteArray<16>", "StackByteArray<24>", "StackByteArray<32>", "StackByteArray<64>", "Locked<HeapByteArray<16>>", "Locked<HeapByteArray<32>>", "Locked<HeapByteArray<64>>"]:
+        for path in ["json_array(visit_seq)", "bincode_bytes(visit_bytes)", "SeqDeserializer+end", "BytesDeserializer"]:
+            if "%s|%s" % (ty, path) not in wl:
+                out.append("wrong-length path never run: %s %s" % (ty, path))
+    return out[:10]
+
+
+PROPS["C16"] = dict(
+    level="exploration",
+    technique="runtime round-trip and fault-family monitoring: every object type x container is encoded and decoded through to_bytes/from_bytes, into_parts/from_parts, serde_json and bincode and compared (and must still decrypt/verify; wire layout compared with libsodium); fixed-length types are fed every element count 0..=2N through both serde visitor paths and TryFrom",
+    level_text="Boxes (plain and sealed), secret boxes, signed messages, key pairs, sessions, KDFs and password hashes with stack, Vec, heap, locked and read-only-locked containers are round-tripped for every "
+               "payload length 0..=130 (quick) / 0..=600 (thorough); for each fixed-length array type (16/24/32/64 bytes, stack and locked-heap) every element count 0..=2N is presented as a JSON array (element-sequence path), "
+               "a bincode byte string (byte-string path), through serde's value deserializers and through TryFrom / from_slices, and must be rejected unless the count is exactly N. "
+               "The count enumeration is exhaustive within 0..=2N; payloads and keys are sampled.",
+    level_note="HeapByteArray<N> and LockedRO<...> only implement Serialize; their encodings are compared with the stack type's. Vec<u8> containers have no fixed length to enforce and are only round-tripped.",
+    runs=lambda tier: [dict(build="st", monitor="c16"), dict(build="ni", monitor="c16", opts=NI_ONLY)],
+    floors=_c16_floors,
+    rule="a case is (object type, containers, payload length, encoding) or (fixed-length type, decoding path, element count); distinct by payload length / type; evaluations = individual comparisons",
+    assumptions=[],
+    trusted_base=TB_COMMON + ["serde_json 1.0 and bincode 1.3 as the two formats (element-sequence and byte-string encodings of byte arrays)"],
+)
